@@ -1,6 +1,6 @@
 """C11 — a hub client can never reach outside the served directory (DESIGN §7 C11)."""
 from rules.common import *  # noqa: F401,F403
-from rules.hub import Hub, SERVE, SAFE_JOIN, ROOT, SAFE, TAINT, OTHER, FS_PATH_SINKS
+from rules.hub import SIBLING, Hub, SERVE, SAFE_JOIN, ROOT, SAFE, TAINT, OTHER, FS_PATH_SINKS
 from flow import ENUMS
 
 CONFIGS = ['cli']
@@ -36,8 +36,15 @@ def r1(ctx, F, hub):
         fl = flow_of(b)
         key = '%s:%s(%s)' % (b.path.split('::{')[0] + ('{closure}' if '::{' in b.path else ''), c.split('::')[-1], root_name(fl, op))
         bad = labels & {TAINT, OTHER}
-        ctx.check(not bad and bool(labels), 'C11.R1', key, 'path labels %s' % sorted(labels),
+        # parent()/with_file_name()/with_extension() of a request path: fine for creating the directory chain above a file,
+        # but as the target of a create / rename / remove it names the parent or a sibling of the served directory when the
+        # request path is the directory itself ("", ".", "./")
+        climbs = SIBLING in labels and c != 'std::fs::create_dir_all'
+        labels2 = labels - {SIBLING}
+        ctx.check(not bad and bool(labels2) and not climbs, 'C11.R1', key, 'path labels %s' % sorted(labels),
                   'fs call %s receives a path that is %s' % (c, 'client-controlled without passing safe_join' if TAINT in labels else
+                                                            'built with parent()/with_file_name()/with_extension() from a request path: for a request that names the served '
+                                                            'directory itself ("", ".") it lies outside the tree' if climbs else
                                                             'not derived from the served root or safe_join (%s)' % sorted(labels)),
                   term_loc(b, bb))
     # safe_join's own root argument is the served root at every call site
